@@ -204,6 +204,13 @@ impl PartitionStorage for FilePartitionStorage {
             }
 
             partition.current_offset = last_segment.current_offset;
+            // An empty trailing segment (everything before it was removed by retention, or the
+            // server stopped right after a roll-over) starts at the next offset to assign, so the
+            // last assigned offset is the one before it and the partition did hold messages.
+            if last_segment.size_bytes == 0 && last_segment.start_offset > 0 {
+                partition.current_offset = last_segment.start_offset - 1;
+                partition.should_increment_offset = true;
+            }
         }
 
         partition
